@@ -212,25 +212,65 @@ void build_node(NodeT& n, const JVal& v, Alloc& a, vf::Rng* r = nullptr, StrMode
 }
 
 // ------------------------------------------------------------------ TrackAlloc
+// Ledger allocator: every block is recorded (exactly-once release, nothing live at the end).  In sanitizer builds a
+// block is an exact malloc block (ASan sees the first byte outside it).  In production builds - where the library takes
+// code paths that are compiled out under sanitizers - every block is wrapped in two 32-byte guard zones filled with a
+// pattern; the zones are verified when the block is released or resized and whenever the ledger is consulted, so a
+// write past either end of a block is observed without a sanitizer.
+#if defined(__SANITIZE_ADDRESS__) || defined(__SANITIZE_THREAD__)
+#define SU_LEDGER_GUARDS 0
+#else
+#define SU_LEDGER_GUARDS 1
+#endif
 struct Ledger {
   std::mutex mu;
   std::unordered_map<void*, std::pair<size_t, uint64_t>> live;
   uint64_t serial = 0;
   uint64_t mallocs = 0, frees = 0, reallocs = 0;
-  uint64_t foreign_free = 0, realloc_foreign = 0;
+  uint64_t foreign_free = 0, realloc_foreign = 0, guard_damaged = 0;
   std::string last_error;
 };
 inline Ledger& ledger() {
   static Ledger l;
   return l;
 }
+static const size_t kLedgerGuard = SU_LEDGER_GUARDS ? 32 : 0;
+static const unsigned char kLedgerGuardByte = 0xA5;
+// caller holds l.mu
+inline bool ledger_guards_intact(Ledger& l, void* user, size_t size) {
+  if (!SU_LEDGER_GUARDS) return true;
+  const unsigned char* u = static_cast<const unsigned char*>(user);
+  for (size_t k = 1; k <= kLedgerGuard; k++)
+    if (u[-(long)k] != kLedgerGuardByte) {
+      l.guard_damaged++;
+      l.last_error = "byte " + std::to_string(k) + " BEFORE a block of " + std::to_string(size) + " bytes was overwritten";
+      return false;
+    }
+  for (size_t k = 0; k < kLedgerGuard; k++)
+    if (u[size + k] != kLedgerGuardByte) {
+      l.guard_damaged++;
+      l.last_error = "byte " + std::to_string(k) + " AFTER a block of " + std::to_string(size) + " bytes was overwritten";
+      return false;
+    }
+  return true;
+}
+inline void* ledger_raw_alloc(size_t size) {
+  unsigned char* raw = static_cast<unsigned char*>(std::malloc(size + 2 * kLedgerGuard));
+  if (!raw) return nullptr;
+  if (SU_LEDGER_GUARDS) {
+    memset(raw, kLedgerGuardByte, kLedgerGuard);
+    memset(raw + kLedgerGuard + size, kLedgerGuardByte, kLedgerGuard);
+  }
+  return raw + kLedgerGuard;
+}
+inline void ledger_raw_free(void* user) { std::free(static_cast<unsigned char*>(user) - kLedgerGuard); }
 
 class TrackAlloc {
  public:
   static constexpr bool kNeedFree = true;
   void* Malloc(size_t size) {
     if (size == 0) return nullptr;
-    void* p = std::malloc(size);
+    void* p = ledger_raw_alloc(size);
     Ledger& l = ledger();
     std::lock_guard<std::mutex> g(l.mu);
     l.mallocs++;
@@ -244,6 +284,8 @@ class TrackAlloc {
       Free(old);
       return nullptr;
     }
+    size_t known = 0;
+    bool had = false;
     if (old) {
       std::lock_guard<std::mutex> g(l.mu);
       auto it = l.live.find(old);
@@ -251,10 +293,17 @@ class TrackAlloc {
         l.realloc_foreign++;
         l.last_error = "Realloc of a block the ledger does not know";
       } else {
+        known = it->second.first;
+        had = true;
+        ledger_guards_intact(l, old, known);
         l.live.erase(it);
       }
     }
-    void* p = std::realloc(old, new_size);
+    void* p = ledger_raw_alloc(new_size);
+    if (had && p) {
+      std::memcpy(p, old, known < new_size ? known : new_size);
+      ledger_raw_free(old);
+    }
     std::lock_guard<std::mutex> g(l.mu);
     l.reallocs++;
     l.live[p] = {new_size, ++l.serial};
@@ -271,10 +320,11 @@ class TrackAlloc {
         l.last_error = "Free of a block that is not live (double or foreign free)";
         return;  // do not hand it to free(): keep running so the harness can report
       }
+      ledger_guards_intact(l, p, it->second.first);
       l.live.erase(it);
       l.frees++;
     }
-    std::free(p);
+    ledger_raw_free(p);
   }
   bool operator==(const TrackAlloc&) const { return true; }
   bool operator!=(const TrackAlloc&) const { return false; }
@@ -288,16 +338,19 @@ inline size_t ledger_live() {
 inline uint64_t ledger_errors() {
   Ledger& l = ledger();
   std::lock_guard<std::mutex> g(l.mu);
-  return l.foreign_free + l.realloc_foreign;
+  if (SU_LEDGER_GUARDS && l.guard_damaged == 0)
+    for (auto& kv : l.live)
+      if (!ledger_guards_intact(l, kv.first, kv.second.first)) break;
+  return l.foreign_free + l.realloc_foreign + l.guard_damaged;
 }
 // drop everything still live (after reporting) so that one leak is not
 // re-reported by every later case
 inline void ledger_reset() {
   Ledger& l = ledger();
   std::lock_guard<std::mutex> g(l.mu);
-  for (auto& kv : l.live) std::free(kv.first);
+  for (auto& kv : l.live) ledger_raw_free(kv.first);
   l.live.clear();
-  l.foreign_free = l.realloc_foreign = 0;
+  l.foreign_free = l.realloc_foreign = l.guard_damaged = 0;
   l.last_error.clear();
 }
 
